@@ -58,6 +58,7 @@ def _case(draw, tier):
         if c["method"] == "map" and c.get("mc") is None and draw(st.booleans()):
             c["mc"] = 2  # the bounded map path has its own ordering bookkeeping
         c["nitems"] = max(c["nitems"], 2)
+    c["self_unregister"] = prob(draw, 0.25)  # the failing observer removes itself from the caller's list when it fails
     c["unhashable"] = prob(draw, 0.2)  # observers written as @dataclass / with __eq__ are not hashable
     c["exc"] = draw(st.sampled_from(["message", "message", "empty", "bare_class", "multiline", "non_str_args", "keyerror_empty"]))
     c["idx_draw"] = draw(st.lists(st.integers(0, 10_000), min_size=40, max_size=40))
@@ -87,6 +88,17 @@ def _exc(kind, where):
     return RuntimeError(f"observer failure {where}")
 
 
+def _leave(p):
+    """A circuit-breaker style observer: when it fails it also takes itself out of the caller's registry (the list object that
+    was passed as event_processors).  The call in flight works on its own view of that list."""
+    reg = getattr(p, "registry", None)
+    if reg is not None and getattr(p, "leaves_registry", False):
+        for j, q in enumerate(reg):
+            if q is p:
+                del reg[j]
+                break
+
+
 def _make_probe_classes(exc_kind="message", suspend=0, unhashable=False):
     import asyncio
 
@@ -106,11 +118,13 @@ def _make_probe_classes(exc_kind="message", suspend=0, unhashable=False):
             self.i += 1
             self.events.append(event)
             if self.fail_at == "all" or self.fail_at == i:
+                _leave(self)
                 raise _exc(exc_kind, f"at event {i}")
 
         def shutdown(self):
             self.shutdowns += 1
             if self.fail_at in ("shutdown", "all"):
+                _leave(self)
                 raise _exc(exc_kind, "at shutdown")
 
     class AsyncProbe(AsyncEventProcessor):
@@ -130,6 +144,7 @@ def _make_probe_classes(exc_kind="message", suspend=0, unhashable=False):
             if self.fail_at == "all" or self.fail_at == i:
                 for _ in range(suspend):
                     await asyncio.sleep(0)
+                _leave(self)
                 raise _exc(exc_kind, f"at event {i}")
 
         def shutdown(self):
@@ -229,7 +244,9 @@ def check_case(case, ev):
             def factory(i, rk, k=k, order=order, holder=holder):
                 f, r = P(fail_at=k), P()
                 holder["rec"], holder["fail"] = r, f
-                return [f, r] if order == "failing_first" else [r, f]
+                reg = [f, r] if order == "failing_first" else [r, f]
+                f.registry, f.leaves_registry = reg, bool(case.get("self_unregister"))
+                return reg
 
             calls, _, _ = run_with(factory)
             call = calls[0]
